@@ -194,6 +194,18 @@ func (m *monitor) step(t TraceLine) (boundary bool) {
 			}
 			d := filepath.Dir(newp)
 			m.pendDir[d] = append(m.pendDir[d], newp)
+			if k == "sidecar" {
+				// R5: the TXID sidecar vouches for the database next to it (a restarted follower trusts it and skips
+				// everything up to that TXID): whatever was written to that database must be flushed before the
+				// sidecar is published
+				dbp := strings.TrimSuffix(newp, "-txid")
+				if ds := m.files[dbp]; ds != nil {
+					m.rules["R5"]++
+					if ds.written {
+						m.fail("sidecar-before-data-flush", fmt.Sprintf("call #%d publishes %s while %s has writes that were not fsynced", t.Seq, newp, dbp))
+					}
+				}
+			}
 		}
 		if s := m.files[oldp]; s != nil {
 			m.files[newp] = s
@@ -467,6 +479,9 @@ func c11Scenarios() []c11Scenario {
 		c11Scenario{"behind-replica-idle", base, f("W3 SW W1 SW STOPW RMMETA RESTARTW S RS CL")},
 		c11Scenario{"restart-clean", base, f("W3 SW W1 S STOPW W1 RESTARTW SW CMP:1 RETL0:2 CL")},
 		c11Scenario{"follower", base, f("W3 SW FOLLOW:follower FWAIT:1 W1 SW FWAIT:2 W1 SW CMP:1 RETL0:2 W1 SW FWAIT:4 FSTOP CL")},
+		// a follower that fell behind level-0 retention while it was stopped: its next TXID exists only in level 1,
+		// the gap is bridged from there (fillFollowGap), with and without level-0 files left to apply afterwards
+		c11Scenario{"follower-bridges-from-l1", cfgWith(func(c *scn.Config) { c.L0RetentionNS = 1 }), f("W3 SW FOLLOW:follower FWAIT:1 FSTOP W1 SW W1 SW W1 SW CMP:1 RETL0A:4 FOLLOW:follower FWAIT:4 FSTOP W1 SW W1 SW CMP:1 RETL0A:2 W1 SW FOLLOW:follower FWAIT:7 FSTOP CL")},
 		c11Scenario{"legacy-restore-snapshot-only", base, f("V3GEN:snaponly RESTORE:restored")},
 		c11Scenario{"legacy-restore-with-wal", base, f("V3GEN:full RESTORE:restored")},
 		// byte-budgeted syncs whose LAST chunk is itself budget-limited (one transaction larger than the budget)
@@ -491,7 +506,7 @@ func c11(args []string) int {
 	scs := c11Scenarios()
 	if ev.Tier() != "thorough" {
 		// quick: the scenarios that between them contain every publish/delete site
-		keep := map[string]bool{"sync+ckpt": true, "compact+retain": true, "restore+close": true, "behind-replica-fetch": true, "follower": true, "behind-replica-idle": true, "legacy-restore-snapshot-only": true, "legacy-restore-with-wal": true, "chunked": true, "chunked-big-tx": true, "republish-same-name": true}
+		keep := map[string]bool{"sync+ckpt": true, "compact+retain": true, "restore+close": true, "behind-replica-fetch": true, "follower": true, "behind-replica-idle": true, "legacy-restore-snapshot-only": true, "legacy-restore-with-wal": true, "chunked": true, "chunked-big-tx": true, "republish-same-name": true, "follower-bridges-from-l1": true}
 		var q []c11Scenario
 		for _, s := range scs {
 			if keep[s.Name] {
@@ -610,7 +625,7 @@ func c11(args []string) int {
 		},
 		Coverage: map[string]any{
 			"evaluations": events + rules["R2"] + rules["R4"] + faultRuns, "distinct_nontrivial": len(kinds),
-			"rule":    "every rename onto a final name (LTX file, restore output, TXID sidecar) and every unlink of an LTX file in the recorded syscall traces of the scenarios is a checked event: R1 source fsynced after its last write before the rename; R2 directory fsynced before the operation reports success; R3 an unlinked LTX file is superseded by a durable file (uploaded copy, higher level covering its range, or snapshot); R4 no write ever targets a final name; distinct = (scenario, rule) pairs exercised",
+			"rule":    "every rename onto a final name (LTX file, restore output, TXID sidecar) and every unlink of an LTX file in the recorded syscall traces of the scenarios is a checked event: R1 source fsynced after its last write before the rename; R2 directory fsynced before the operation reports success; R3 an unlinked LTX file is superseded by a durable file (uploaded copy, higher level covering its range, or snapshot); R4 no write ever targets a final name; R5 the database a TXID sidecar sits next to has no unflushed writes when the sidecar is published; distinct = (scenario, rule) pairs exercised",
 			"samples": samples, "exhaustive": exhaustive, "rename_unlink_events": events, "counted_syscalls": calls, "rule_checks": rules, "scenarios": scsRun,
 			"flush_failure_runs": faultRuns, "flush_failure_call_not_reached": faultNotReached, "flush_failure_inconclusive": faultInconclusive, "flush_failure_cut_by_budget": faultCut, "flush_failure_skipped_same_path_class_quick": faultSkippedSameClass,
 			"flush_failure_rule": "every fsync/fdatasync of a litestream-owned file or directory in the fault-free trace fails with EIO (without executing) in a run of its own; rules R1/R2 are evaluated up to the result of the operation in flight",
